@@ -32,7 +32,7 @@ def build_cases(seed, n):
                            {"avro.schema": json.dumps({"type": "record", "name": "Stale", "fields": [{"name": "zz", "type": "string"}]}), "k": "v"},
                            {"avro.codec": "snappy", "avro.schema": "\"string\""}])
         sync = rnd.choice([b"", bytes(range(16)), bytes([rnd.getrandbits(8) for _ in range(16)])])
-        kind = rnd.choice(["bytesio", "bytesio", "file", "writeonly", "incremental"])
+        kind = rnd.choice(["bytesio", "bytesio", "file", "writeonly", "incremental", "one-shot-iterable", "one-shot-iterable-validated"])
         parsed = rnd.random() < 0.5
         interval = rnd.choice([1, 2, 7, 16, 100, 16000, "fill1", "fill2", "fill1-1", "beyond"])
         cases.append(dict(schema=s, records=recs, codec=codec, level=level, meta=meta, sync=sync, kind=kind,
@@ -109,6 +109,12 @@ def write_impl(c, interval):
                     raise MachineryError("Writer.write accepted a datum that schemaless_writer refuses")
             w.write(rec)
         w.flush()
+        data = fo.getvalue()
+    elif c["kind"].startswith("one-shot-iterable"):
+        # the records come from a generator / iterator / map object that can be walked once; with and without validator=True
+        fo = io.BytesIO()
+        src = random.Random(len(c["records"])).choice([lambda xs: (x for x in xs), iter, lambda xs: map(lambda x: x, xs)])(list(c["records"]))
+        fastavro.writer(fo, ps, src, validator=c["kind"].endswith("validated"), **kw)
         data = fo.getvalue()
     elif c["kind"] == "writeonly":
         fo = WriteOnly()
